@@ -10,6 +10,7 @@ import (
 	"sort"
 	"strings"
 
+	"golang.org/x/tools/go/callgraph"
 	"golang.org/x/tools/go/packages"
 	"golang.org/x/tools/go/ssa"
 	"golang.org/x/tools/go/ssa/ssautil"
@@ -26,6 +27,7 @@ type loaded struct {
 	ssaPkgs map[string]*ssa.Package
 	nfuncs  int
 	allFns  map[*ssa.Function]bool
+	cg      *callgraph.Graph
 }
 
 func goEnv(extra []string) []string {
